@@ -5,7 +5,9 @@
 package otpair
 
 import (
+	"bytes"
 	"crypto/elliptic"
+	"crypto/rsa"
 	"fmt"
 	"math/big"
 
@@ -30,10 +32,11 @@ type world struct{ tier string }
 var Sizes = []int{1, 2, 3, 4, 5, 6, 7, 8, 9, 15, 16, 17, 63, 64, 65, 127, 128, 129, 255, 256, 257, 511, 512, 513, 1023, 1024, 1025, 1535, 1536, 1537, 2047, 2048, 2049}
 
 const (
-	scOT       = iota // ot.OT implementations: Send/Receive of chosen labels
-	scIKNP            // raw IKNP label form
-	scIKNPBits        // raw IKNP packed-bit form
-	scHelpers         // pure Chou-Orlandi helpers as a message exchange
+	scOT         = iota // ot.OT implementations: Send/Receive of chosen labels
+	scIKNP              // raw IKNP label form
+	scIKNPBits          // raw IKNP packed-bit form
+	scHelpers           // pure Chou-Orlandi helpers as a message exchange
+	scPrimitives        // the step-by-step transfer objects of ot/rsa.go and ot/co.go, messages carried by the caller
 )
 
 const (
@@ -109,8 +112,12 @@ type link struct {
 func (w *world) Run(t *rt.Tape, trace bool) *core.Result {
 	res := &core.Result{}
 	core.BeginRun(t)
-	scenario := []int{scOT, scOT, scIKNP, scIKNPBits, scIKNPBits, scHelpers, scOT, scIKNP}[t.Choose(rt.SGen, 8)]
+	scenario := []int{scOT, scOT, scIKNP, scIKNPBits, scIKNPBits, scHelpers, scOT, scIKNP, scPrimitives}[t.Choose(rt.SGen, 9)]
 	useConn := t.Choose(rt.SGen, 3) != 0
+	// one message-level case in three runs over the library's own in-memory ot.IO (ot.NewPipe: two
+	// synchronous io.Pipes - every send blocks until the other end has read all of it, and
+	// ReceiveData hands out a slice of the pipe's one read buffer)
+	usePipe := !useConn && t.Choose(rt.SGen, 3) == 0
 	pipe, _ := func() (simnet.PipeConfig, bool) {
 		a, s1 := core.DrawDir(t, core.Caps)
 		b, s2 := core.DrawDir(t, core.Caps)
@@ -143,7 +150,9 @@ func (w *world) Run(t *rt.Tape, trace bool) *core.Result {
 	// message-level transport: in half of the cases SendData consumes its payload late and
 	// sometimes blocks first (back-pressure)
 	slowSend := 0
-	if !useConn && t.Choose(rt.SGen, 2) == 0 {
+	if usePipe {
+		smp.Transport = "ot.NewPipe (the library's in-memory ot.IO)"
+	} else if !useConn && t.Choose(rt.SGen, 2) == 0 {
 		slowSend = []int{2, 4, 16}[t.Choose(rt.SGen, 3)]
 		smp.Transport += fmt.Sprintf(" (SendData blocks before consuming its payload, one call in %d)", slowSend)
 	}
@@ -153,6 +162,10 @@ func (w *world) Run(t *rt.Tape, trace bool) *core.Result {
 			ea, eb := simnet.Pipe("S", "R", pipe)
 			ca, cb := p2p.NewConn(ea), p2p.NewConn(eb)
 			return link{s: ca, r: cb, closeS: func() { ca.Close() }, closeR: func() { cb.Close() }, ea: ea}
+		}
+		if usePipe {
+			a, b := ot.NewPipe()
+			return link{s: a, r: b, closeS: func() { a.Close() }, closeR: func() { b.Close() }}
 		}
 		a, b := simio.Pair("S", "R")
 		a.SlowSend, b.SlowSend = slowSend, slowSend
@@ -674,6 +687,223 @@ func (w *world) Run(t *rt.Tape, trace bool) *core.Result {
 				}
 				if !got[j].Equal(want) {
 					failure = &core.Failure{Clause: "wrong-label", Detail: fmt.Sprintf("CO helpers on %s, position %d/%d choice=%v: receiver has %v, chosen label is %v", curve.Params().Name, j, n, choices[j], got[j], want)}
+					res.Fail = failure
+					return
+				}
+			}
+		}()
+
+	case scPrimitives:
+		// The transfer objects underneath ot.RSA and ot.CO are public API of their own: one
+		// sender object (one RSA key / one curve) serves several 1-out-of-2 transfers whose
+		// messages the caller carries. The two tasks exchange them over channels; each side works
+		// through the transfers in its own tape-chosen order, so the steps of different transfers
+		// on one sender object interleave.
+		useRSA := t.Choose(rt.SGen, 3) == 0
+		n := 1 + t.Choose(rt.SGen, 6)
+		if useRSA {
+			n = 1 + t.Choose(rt.SGen, 3)
+		}
+		rsaBits := []int{1024, 1025, 1031, 1027, 1024, 1279}[t.Choose(rt.SGen, 6)]
+		smp.Scenario, smp.Batches = "transfer primitives (Chou-Orlandi COSender/COReceiver)", []int{n}
+		smp.Transport = "messages carried by the caller"
+		if useRSA {
+			smp.Scenario = "transfer primitives (RSA Sender/Receiver)"
+			smp.Base = fmt.Sprintf("RSA key size %d bits", rsaBits)
+		}
+		m0s, m1s := make([][]byte, n), make([][]byte, n)
+		bitsOf := drawChoices(t, n, rH)
+		for i := 0; i < n; i++ {
+			sz := 16
+			if t.Choose(rt.SGen, 3) == 0 {
+				sz = 1 + t.Choose(rt.SGen, 32)
+			}
+			m0s[i], m1s[i] = make([]byte, sz), make([]byte, sz)
+			rH.Read(m0s[i])
+			rH.Read(m1s[i])
+			switch t.Choose(rt.SGen, 6) {
+			case 0: // leading zero bytes
+				m0s[i][0], m1s[i][0] = 0, 0
+			case 1: // all zero / all ones
+				for j := range m0s[i] {
+					m0s[i][j], m1s[i][j] = 0, 0xff
+				}
+			}
+		}
+		perm := func() []int {
+			p := make([]int, n)
+			for i := range p {
+				p[i] = i
+			}
+			for i := n - 1; i > 0; i-- {
+				j := t.Choose(rt.SGen, i+1)
+				p[i], p[j] = p[j], p[i]
+			}
+			return p
+		}
+		sOrder1, sOrder2, rOrder1, rOrder2 := perm(), perm(), perm(), perm()
+		gotM := make([][]byte, n)
+		gotBit := make([]uint, n)
+		type msg struct {
+			idx  int
+			a, b []byte
+		}
+		body = func() {
+			c1 := rt.NewChan[msg](n) // sender -> receiver, first message of a transfer
+			c2 := rt.NewChan[msg](n) // receiver -> sender
+			c3 := rt.NewChan[msg](n) // sender -> receiver, last message
+			pubC := rt.NewChan[any](1)
+			collect := func(c *rt.Chan[msg]) ([]msg, bool) {
+				out := make([]msg, n)
+				for k := 0; k < n; k++ {
+					m, ok := c.Recv2()
+					if !ok {
+						return nil, false
+					}
+					out[m.idx] = m
+				}
+				return out, true
+			}
+			rt.GoParty("S", "sender", func() {
+				defer func() { c1.Close(); c3.Close() }()
+				if useRSA {
+					s, err := ot.NewSender(rS, rsaBits)
+					if err != nil {
+						fail("sender-error", "NewSender: "+err.Error())
+						pubC.Close()
+						return
+					}
+					pubC.Send(s.PublicKey())
+					x := make([]*ot.SenderXfer, n)
+					for _, i := range sOrder1 {
+						x[i], err = s.NewTransfer(m0s[i], m1s[i])
+						if err != nil {
+							fail("sender-error", "NewTransfer: "+err.Error())
+							return
+						}
+						x0, x1 := x[i].RandomMessages()
+						c1.Send(msg{i, x0, x1})
+					}
+					vs, ok := collect(c2)
+					if !ok {
+						return
+					}
+					for _, i := range sOrder2 {
+						x[i].ReceiveV(vs[i].a)
+						a, b, err := x[i].Messages()
+						if err != nil {
+							fail("sender-error", "Messages: "+err.Error())
+							return
+						}
+						c3.Send(msg{i, a, b})
+					}
+				} else {
+					s := ot.NewCOSender(rS)
+					pubC.Send(s.Curve())
+					x := make([]*ot.COSenderXfer, n)
+					for _, i := range sOrder1 {
+						var err error
+						x[i], err = s.NewTransfer(m0s[i], m1s[i])
+						if err != nil {
+							fail("sender-error", "NewTransfer: "+err.Error())
+							return
+						}
+						ax, ay := x[i].A()
+						c1.Send(msg{i, ax, ay})
+					}
+					bs, ok := collect(c2)
+					if !ok {
+						return
+					}
+					for _, i := range sOrder2 {
+						x[i].ReceiveB(bs[i].a, bs[i].b)
+						e0, e1 := x[i].E()
+						c3.Send(msg{i, e0, e1})
+					}
+				}
+				sDone = true
+			})
+			rt.GoParty("R", "receiver", func() {
+				defer c2.Close()
+				pv, ok := pubC.Recv2()
+				if !ok {
+					return
+				}
+				bit := func(i int) uint {
+					if bitsOf[i] {
+						return 1
+					}
+					return 0
+				}
+				first, ok := collect(c1)
+				if !ok {
+					return
+				}
+				if useRSA {
+					r, err := ot.NewReceiver(rR, pv.(*rsa.PublicKey))
+					if err != nil {
+						fail("receiver-error", "NewReceiver: "+err.Error())
+						return
+					}
+					x := make([]*ot.ReceiverXfer, n)
+					for _, i := range rOrder1 {
+						x[i], err = r.NewTransfer(bit(i))
+						if err == nil {
+							err = x[i].ReceiveRandomMessages(first[i].a, first[i].b)
+						}
+						if err != nil {
+							fail("receiver-error", "transfer: "+err.Error())
+							return
+						}
+						c2.Send(msg{i, x[i].V(), nil})
+					}
+					last, ok := collect(c3)
+					if !ok {
+						return
+					}
+					for _, i := range rOrder2 {
+						if err := x[i].ReceiveMessages(last[i].a, last[i].b, nil); err != nil {
+							fail("receiver-error", fmt.Sprintf("ReceiveMessages (transfer %d of %d, %d-byte messages, bit %d): %v", i, n, len(m0s[i]), bit(i), err))
+							return
+						}
+						gotM[i], gotBit[i] = x[i].Message()
+					}
+				} else {
+					r := ot.NewCOReceiver(rR, pv.(elliptic.Curve))
+					x := make([]*ot.COReceiverXfer, n)
+					for _, i := range rOrder1 {
+						var err error
+						x[i], err = r.NewTransfer(bit(i))
+						if err != nil {
+							fail("receiver-error", "NewTransfer: "+err.Error())
+							return
+						}
+						x[i].ReceiveA(first[i].a, first[i].b)
+						bx, by := x[i].B()
+						c2.Send(msg{i, bx, by})
+					}
+					last, ok := collect(c3)
+					if !ok {
+						return
+					}
+					for _, i := range rOrder2 {
+						gotM[i], gotBit[i] = x[i].ReceiveE(last[i].a, last[i].b), bit(i)
+					}
+				}
+				rDone = true
+			})
+		}
+		defer func() {
+			if failure != nil || !sDone || !rDone {
+				return
+			}
+			for i := 0; i < n; i++ {
+				want := m0s[i]
+				if bitsOf[i] {
+					want = m1s[i]
+				}
+				if !bytes.Equal(gotM[i], want) || (gotBit[i] == 1) != bitsOf[i] {
+					failure = &core.Failure{Clause: "wrong-label", Detail: fmt.Sprintf("%s, transfer %d of %d (sender order %v/%v, receiver order %v/%v), choice=%v: receiver has %x (bit %d), the sender's chosen message is %x", smp.Scenario, i, n, sOrder1, sOrder2, rOrder1, rOrder2, bitsOf[i], gotM[i], gotBit[i], want)}
 					res.Fail = failure
 					return
 				}
